@@ -292,7 +292,7 @@ class SimQueue:
             w = self.waiters.pop(0)
             if w.state == 'waiting':
                 w.state = 'waking'
-                sim.after(sim.wake_latency(), lambda: sim._resume(w.th), 'q-wake')
+                sim.after(sim.wake_latency(), (lambda w=w: sim._resume(w.th) if w.state == 'waking' else None), 'q-wake')
                 break
 
     def put_nowait(self, item):
@@ -315,7 +315,8 @@ class SimQueue:
             def fire():
                 st['expired'] = True
                 w = st['w']
-                if w is not None and w.state == 'waiting':
+                if w is not None and w.state in ('waiting', 'waking'):
+                    # (a wake-up by put() may already be on its way: the sleeper runs at the earlier of the two)
                     w.state = 'timedout'
                     if w in self.waiters:
                         self.waiters.remove(w)
